@@ -1,5 +1,6 @@
 (* GenFacts/TextFacts.v — characterising lemmas about Gen/GenText.v, re-proved on every run.
    They are the only interface through which later proofs see the generated definitions. *)
+From Coq Require Import Lia ZifyBool.
 Require Import PyBase GenText.
 Open Scope Z_scope.
 
@@ -8,10 +9,10 @@ Proof. reflexivity. Qed.
 Lemma nl_rstrip_arg_is : nl_rstrip_arg = [10]. Proof. reflexivity. Qed.
 Lemma nl_defaults : nl_default_start = 10 /\ nl_default_increment = 10 /\ nl_default_width = 0.
 Proof. repeat split; reflexivity. Qed.
-Lemma nl_next_numbered_is p i : nl_next_numbered p i = p + i. Proof. reflexivity. Qed.
-Lemma nl_next_unnumbered_is n i : nl_next_unnumbered n i = n + i. Proof. reflexivity. Qed.
-Lemma nl_pad_test_is p w : nl_pad_test p w = (zlen p <? w). Proof. reflexivity. Qed.
-Lemma nl_pad_count_is p w : nl_pad_count p w = w - zlen p. Proof. reflexivity. Qed.
+Lemma nl_next_numbered_is p i : nl_next_numbered p i = p + i. Proof. unfold nl_next_numbered; lia. Qed.
+Lemma nl_next_unnumbered_is n i : nl_next_unnumbered n i = n + i. Proof. unfold nl_next_unnumbered; lia. Qed.
+Lemma nl_pad_test_is p w : nl_pad_test p w = (zlen p <? w). Proof. unfold nl_pad_test; lia. Qed.
+Lemma nl_pad_count_is p w : nl_pad_count p w = w - zlen p. Proof. unfold nl_pad_count; lia. Qed.
 Lemma nl_separator_is : nl_separator = [32]. Proof. reflexivity. Qed.
 
 Lemma prettier_regex_is : prettier_regex = [40; 91; 94; 34; 93; 41]. Proof. reflexivity. Qed.
